@@ -170,9 +170,8 @@ Definition req_split (fixed single : bool) (r : req) : res (list simple) :=
   end.
 
 (* RequirementSet: insertion-ordered dict name -> Requirement *)
-Definition rset : Type := list req.
 
-Fixpoint rs_add (rs : rset) (item : req) : rset :=
+Fixpoint rs_add (rs : (list req)) (item : req) : (list req) :=
   match rs with
   | [] => [item]
   | r :: rest =>
@@ -180,14 +179,14 @@ Fixpoint rs_add (rs : rset) (item : req) : rset :=
       else r :: rs_add rest item
   end.
 
-Definition rs_update (rs : rset) (items : list req) : rset := fold_left rs_add items rs.
-Definition rs_of_list (items : list req) : rset := rs_update [] items.
+Definition rs_update (rs : (list req)) (items : list req) : (list req) := fold_left rs_add items rs.
+Definition rs_of_list (items : list req) : (list req) := rs_update [] items.
 
-Definition rs_has (rs : rset) (name : str) : bool := existsb (fun r => str_eqb (fst r) name) rs.
-Definition rs_remove (rs : rset) (name : str) : rset := filter (fun r => negb (str_eqb (fst r) name)) rs.
+Definition rs_has (rs : (list req)) (name : str) : bool := existsb (fun r => str_eqb (fst r) name) rs.
+Definition rs_remove (rs : (list req)) (name : str) : (list req) := filter (fun r => negb (str_eqb (fst r) name)) rs.
 
 (* self.merge_from(other): returns (self, other) after the call *)
-Definition rs_merge_from (self other : rset) : rset * rset :=
+Definition rs_merge_from (self other : (list req)) : (list req) * (list req) :=
   fold_left (fun acc i =>
                if rs_has (fst acc) (fst i) then (rs_add (fst acc) i, rs_remove (snd acc) (fst i)) else acc)
             other (self, other).
@@ -202,7 +201,7 @@ Fixpoint insert_by_name (x : simple) (l : list simple) : list simple :=
 Definition sort_by_name (l : list simple) : list simple := fold_right insert_by_name [] l.
 
 (* RequirementSet.split(single) *)
-Fixpoint rs_split_all (fixed single : bool) (rs : rset) : res (list simple) :=
+Fixpoint rs_split_all (fixed single : bool) (rs : (list req)) : res (list simple) :=
   match rs with
   | [] => Ok []
   | r :: rest =>
@@ -212,14 +211,14 @@ Fixpoint rs_split_all (fixed single : bool) (rs : rset) : res (list simple) :=
       end
   end.
 
-Definition rs_split (fixed single : bool) (rs : rset) : res (list simple) :=
+Definition rs_split (fixed single : bool) (rs : (list req)) : res (list simple) :=
   match rs_split_all fixed single rs with Err => Err | Ok l => Ok (sort_by_name l) end.
 
 (* requirement part of PkgConfigInfo.finalize:
      requires_private.update(auto_requires); requires.merge_from(requires_private)
      'requires': requires.split(single=True), 'requires_private': ...split(single=True),
      'conflicts': conflicts.split() *)
-Definition finalize_sets (requires requires_private auto_requires : list req) : rset * rset :=
+Definition finalize_sets (requires requires_private auto_requires : list req) : (list req) * (list req) :=
   let pub := rs_of_list requires in
   let priv := rs_update (rs_of_list requires_private) auto_requires in
   rs_merge_from pub priv.
